@@ -181,7 +181,8 @@ impl PropImpl for C01 {
         Some(Case { text: t.to_string(), origin: "text" })
     }
     fn decode(&self, ctx: &mut Ctx, t: &mut Tape) -> Case {
-        if t.chance(1, 40) {
+        let long = t.chance(1, 40);
+        if long && !ctx.light {
             // (B) a long document with a multi-byte character across a power-of-two byte offset: readers that take their
             // input from an io::Read in blocks must not decode the blocks separately
             let block = *t.pick(&[512usize, 1024, 4096, 8192, 16384, 65536]);
@@ -205,7 +206,8 @@ impl PropImpl for C01 {
             text.push_str("\nB: c\n");
             return Case { text, origin: "block-boundary" };
         }
-        if t.chance(1, 60) {
+        let many = t.chance(1, 60);
+        if many && !ctx.light {
             // (X) a document with very many malformed lines (around and beyond 1000 / 4096 / 65536 parser errors), then more
             // text: error-recovery limits and give-up paths must not alter what is printed
             let n = *t.pick(&[100usize, 999, 1000, 1001, 1500, 4096, 5000, 70000]);
